@@ -659,6 +659,8 @@ VAR_DESC = {
     "int": ({"var_names": ["x"]}, ["x"]),
     "tuple2": ({"var_names": ["x", "y"]}, ["x", "y"]),
     "array": ({"var_names": "x", "var_dims": {"x": ["t"]}, "var_coords": {"t": [0, 1, 2]}}, ["x"]),
+    "ndarray": ({"var_names": "x", "var_dims": {"x": ["t"]}, "var_coords": {"t": [0, 1, 2]}}, ["x"]),
+    "intarray": ({"var_names": "x", "var_dims": {"x": ["t"]}, "var_coords": {"t": [0, 1, 2]}}, ["x"]),
     "bool": ({"var_names": "x"}, ["x"]),
     "str": ({"var_names": ("x",)}, ["x"]),
     "dict": ({"var_names": None}, ["u", "v"]),
@@ -667,7 +669,7 @@ VAR_DESC = {
 
 def outputs_of(kind, value):
     """reference value -> {var: value} as it appears in a Dataset/DataFrame"""
-    if kind in ("scalar", "int", "bool", "str", "array"):
+    if kind in ("scalar", "int", "bool", "str", "array", "ndarray", "intarray"):
         return {"x": value}
     if kind == "tuple2":
         return {"x": value[0], "y": value[1]}
@@ -750,7 +752,7 @@ def run_c09(ctx):
         return run_c09_race(ctx)
 
     kinds = [("scalar", 5), ("tuple2", 2), ("array", 2), ("bool", 1), ("str", 1),
-             ("dict", 1), ("int", 1)]
+             ("dict", 1), ("int", 1), ("ndarray", 1), ("intarray", 1)]
     m = CropMachine(ctx, kinds=kinds, max_n=30, max_batches=7)
     t = ctx.tape
     m.sow()
@@ -768,7 +770,7 @@ def run_c09(ctx):
 
     def partial_reap(stage):
         form = t.weighted([("raw", 3), ("ds", 2), ("df", 1)], "form")
-        if form == "df" and kind in ("array", "dict"):
+        if form == "df" and kind in ("array", "dict", "ndarray", "intarray"):
             form = "ds"
         before = G.snapshot_tree(m.location)
         crop, which = m.crop_for("reap-reuse")
